@@ -15,14 +15,15 @@ Step ==
       srv == [got |-> Ev.result.probe.got, cost |-> Ev.result.probe.price]
       cli == [got |-> Ev.result.client.got, cost |-> Ev.result.client.cost]
       exp == HandleSUR(cs, r)
+      conc == "concurrent" \in DOMAIN Ev     \* sent together with other subscribers' requests; CHF-side decoding not repeated
       V(c) == [prop |-> "C08", clause |-> c, trace |-> Ev.trace, step |-> Ev.seq,
-               sit |-> [class |-> Class(cs), sub |-> r.sub]]
+               sit |-> [class |-> Class(cs), sub |-> r.sub, concurrent |-> conc]]
   IN /\ viol' = viol
           \cup (IF Answered(obs) /\ srv.got THEN {} ELSE {V("answered")})
           \cup (IF DebitPriceExact(cs, r, obs) THEN {} ELSE {V("debit_price_exact")})
           \cup (IF ReserveAllowedFloor(cs, r, obs) THEN {} ELSE {V("reserve_allowed_floor")})
-          \cup (IF ClientAgrees(srv, cli) THEN {} ELSE {V("client_cost_equals_server")})
-          \cup (IF ClientCostIsStored(cs, cli) THEN {} ELSE {V("client_cost_is_stored")})
+          \cup (IF conc \/ ClientAgrees(srv, cli) THEN {} ELSE {V("client_cost_equals_server")})
+          \cup (IF conc \/ ClientCostIsStored(cs, cli) THEN {} ELSE {V("client_cost_is_stored")})
      /\ div' = div \cup (IF Class(cs) = "other" \/ (exp.got = obs.got /\ (exp.got => (exp.price = obs.price /\ exp.allowed = obs.allowed)))
                          THEN {} ELSE {[trace |-> Ev.trace, step |-> Ev.seq, class |-> Class(cs), sub |-> r.sub]})
 Finish == /\ l = Len(Trace) + 1
